@@ -49,24 +49,31 @@ func run(c *vf.Ctx) {
 	if !c.Quick() {
 		lms = append(lms, lm{"v1-mid", "F1", menuV1}, lm{"v2-eph5", "F2", menuV2}, lm{"mixed", "F1", menuV1})
 	}
-	for _, l := range lms {
-		if c.Expired() {
-			break
-		}
-		sp := chain.Spec(l.net)
-		m := &chain.Model{Name: l.name, Spec: sp, Opt: opt, Menu: l.menu, StaleResolve: true,
-			H: vf.Pick[uint64](c, 7, 10), D: vf.Pick(c, 2, 3), K: vf.Pick(c, 2, 2), R: vf.Pick(c, 1, 1)}
-		if sp.Name == "mixed" {
-			m.SkipStart = 3
-			m.H += 3
-		}
-		m.OnState = func(x *chain.Explorer, w *chain.World, path []string) { ruleAttacks(c, x, w, path) }
-		x := chain.NewExplorer(c, m, "C07")
-		x.Run()
-		x.Report(l.net + "/" + l.name + "/")
-	}
-	// ---------------- (b) storage proofs ----------------
+	// ---------------- (b) storage proofs (first: cheap, must not be starved by the exploration) ----------------
 	proofs(c)
+	// ---------------- (a) life cycles ----------------
+	variants := [][2]int{{2, 2}} // (D, K)
+	if !c.Quick() {
+		variants = [][2]int{{2, 2}, {3, 1}}
+	}
+	for _, l := range lms {
+		for _, v := range variants {
+			if c.Expired() {
+				break
+			}
+			sp := chain.Spec(l.net)
+			m := &chain.Model{Name: l.name, Spec: sp, Opt: opt, Menu: l.menu, StaleResolve: true,
+				H: vf.Pick[uint64](c, 7, 10), D: v[0], K: v[1], R: 1}
+			if sp.Name == "mixed" {
+				m.SkipStart = 3
+				m.H += 3
+			}
+			m.OnState = func(x *chain.Explorer, w *chain.World, path []string) { ruleAttacks(c, x, w, path) }
+			x := chain.NewExplorer(c, m, "C07")
+			x.Run()
+			x.Report(fmt.Sprintf("%s/%s(D=%d,K=%d)/", l.net, l.name, v[0], v[1]))
+		}
+	}
 	c.RequireFeature("feature:v1_fc_proof", "feature:v1_fc_expire", "feature:v1_fc_revise", "feature:v2_fc_renew", "feature:v2_fc_proof", "feature:v2_fc_expire", "feature:v2_fc_revise",
 		"rule_attack_rejected", "rule_control_accepted", "proof_honest_accepted", "proof_pair_accepted", "proof_corrupt_rejected", "proof_era1", "proof_era2", "proof_era3", "proof_v2")
 	c.Sample(map[string]any{"part": "b", "era": "v1 era 3", "filesize": 129, "challenge_index": 2, "honest": "accepted", "other_leaf_1": "rejected"})
